@@ -117,6 +117,23 @@ func genSpec(r *vh.Rand, o genOpts) (tables, reqs, scens string, info genInfo) {
 	for _, v := range vlists {
 		tables += fmt.Sprintf(",%s=%d", v, r.Range(1, 4))
 	}
+	// scalar variables of source g written as template functions (computed when the source is
+	// initialised) or as plain text; `a` is the variable every URI uses
+	gkeys := []string{"a", "b"}
+	if r.Chance(2, 5) {
+		type gw struct{ w, v string }
+		vals := []gw{{"randString(3, a)", "aaa"}, {"randInt(7,7)", "7"}, {"randInt(5, 6)", "5"}, {"plain", "plain"},
+			{"randString(2, q)", "qq"}, {"randInt(-3,-3)", "-3"}, {"nofunc(1)", "nofunc(1)"}, {"randString(1,Z)", "Z"}}
+		for _, k := range []string{"a", "f1", "f2", "f3"} {
+			if r.Chance(1, 2) {
+				x := vals[r.Intn(len(vals))]
+				tables += fmt.Sprintf(",g:%s=%s:%s", k, vh.HexS(x.w), vh.HexS(x.v))
+				if k != "a" {
+					gkeys = append(gkeys, k)
+				}
+			}
+		}
+	}
 	nreq := r.Range(1, 5)
 	names := make([]string, nreq)
 	for i := range names {
@@ -147,7 +164,19 @@ func genSpec(r *vh.Rand, o genOpts) (tables, reqs, scens string, info genInfo) {
 				pre = append(pre, "y:N:items:name")
 			}
 			if r.Chance(1, 3) {
-				pre = append(pre, "z:G:"+r.Pick([]string{"a", "b"}))
+				pre = append(pre, "z:G:"+r.Pick(gkeys))
+			}
+			if r.Chance(1, 6) {
+				// a template function as the mapping's value; arguments: literals or source variables
+				type fw struct{ w, v string }
+				fs := []fw{{"randInt(source.g.k7, source.g.k7)", "7"}, {"randString(source.g.k2, q)", "qq"}, {"randInt(5, 6)", "5"},
+					{"randString(3, Z)", "ZZZ"}, {"randInt(source.g.k2,2)", "2"}, {"randString(1, source.g.k7)", "7"}}
+				x := fs[r.Intn(len(fs))]
+				v := vh.HexS(x.v)
+				if o.failures && r.Chance(1, 5) {
+					x.w, v = r.Pick([]string{"randInt(x)", "randString(source.g.b, q)", "randInt(1,2,3)"}), "!"
+				}
+				pre = append(pre, "f:F:"+vh.HexS(x.w)+":"+v)
 			}
 			if r.Chance(1, 5) {
 				pre = append(pre, "l:L:users:id")
@@ -202,6 +231,12 @@ func genSpec(r *vh.Rand, o genOpts) (tables, reqs, scens string, info genInfo) {
 		}
 		if o.failures && r.Chance(1, 25) {
 			post = append(post, "J:zz:nofield")
+		}
+		if r.Chance(1, 8) {
+			post = append(post, r.Pick([]string{"J0", "H0"}))
+		}
+		if o.failures && r.Chance(1, 30) {
+			post = append(post, "HE:hh")
 		}
 		if len(post) > 1 && r.Bool() {
 			i, j := r.Intn(len(post)), r.Intn(len(post))
